@@ -455,41 +455,100 @@ func c09Cursor(c *Ctx) {
 	c.verdict(len(eq) > 0 && len(nilStoreBlocks) > 0 && !reachable(fn, removed)[ub], "IndexPos.findOffset:cache-invalidation", idStore.Pos(),
 		"the chunk id changes only with the cached data dropped (or the id being equal)", "the current chunk id can change while the cached chunk data is kept: the next read serves the previous chunk's bytes")
 	// loadChunk: null shortcut only on the id-equal edge; otherwise data of GetChunk(curChunkID)
-	if lc := c.mustFn("IndexPos.loadChunk"); lc != nil {
-		n := 0
-		instrs(lc, func(_ *ssa.BasicBlock, _ int, ins ssa.Instruction) {
-			st, ok := ins.(*ssa.Store)
-			if !ok {
-				return
+	c09LoadChunk(c)
+}
+
+// c09LoadChunk (path rule, new helpers explored in place): whenever loadChunk stores the chunk
+// cache, the stored bytes are either the null chunk's data on a path that found the current id
+// equal to the null chunk's id, or Data() of a chunk fetched with GetChunk(current id); and a nil
+// return has stored something.
+func c09LoadChunk(c *Ctx) {
+	lc := c.mustFn("IndexPos.loadChunk")
+	if lc == nil {
+		return
+	}
+	isCur := func(st *State, v ssa.Value) bool {
+		return hasOrigin(st.ArgOf(v), func(o string) bool { return o == "field:IndexPos.curChunkID" })
+	}
+	var bad []string
+	stores, nilPaths := 0, 0
+	h := &Hooks{MaxVisits: 2}
+	h.Fork = func(st *State, call *ssa.Call) []map[int]Val {
+		switch callee(call) {
+		case "(desync.Store).GetChunk":
+			lbl := "chunk:other"
+			if isCur(st, call.Call.Args[0]) {
+				lbl = "chunk:cur"
 			}
-			fa, ok := st.Addr.(*ssa.FieldAddr)
-			if !ok || fieldOf(fa) != "IndexPos.curChunk" {
-				return
+			return []map[int]Val{{0: {N: NNon, Sym: lbl}, 1: {N: NNil, Class: ClsNil}}, {0: {N: NNil}, 1: {N: NNon, Class: ClsOther}}}
+		case "(*desync.Chunk).Data":
+			lbl := "data:other"
+			if st.Eval(call.Call.Args[0]).Sym == "chunk:cur" {
+				lbl = "data:cur"
 			}
-			n++
-			if hasOrigin(st.Val, func(o string) bool { return o == "field:NullChunk.Data" }) {
-				okG, _ := guarded(lc, st, func(iff *ssa.If) (bool, bool) {
-					eqOnTrue, ok := equalEdge(iff, originHas("field:IndexPos.curChunkID"), originHas("field:NullChunk.ID"))
-					if !ok {
-						return false, false
-					}
-					return eqOnTrue, !eqOnTrue
-				})
-				c.verdict(okG, "IndexPos.loadChunk:null-shortcut", st.Pos(), "zeros are served from memory only when the current id is the null chunk's id", "the null-chunk shortcut is taken although the current chunk id was not found equal to the null chunk's id")
-				return
-			}
-			okD := onlyOrigins(st.Val, func(o string) bool { return o == "call:(*desync.Chunk).Data#0" })
-			idOK := false
-			for _, g := range calls(lc, named("(desync.Store).GetChunk")) {
-				if onlyOrigins(g.Common().Args[0], func(o string) bool { return o == "field:IndexPos.curChunkID" }) {
-					idOK = true
-				}
-			}
-			c.verdict(okD && idOK, "IndexPos.loadChunk:data", st.Pos(), "the cached data is Data() of GetChunk(curChunkID)", "the cached chunk data does not come from GetChunk(curChunkID).Data()")
-		})
-		if n < 2 {
-			c.bad("IndexPos.loadChunk:stores", lc.Pos(), "loadChunk does not store the chunk data")
+			return []map[int]Val{{0: {N: NNon, Sym: lbl}, 1: {N: NNil, Class: ClsNil}}, {1: {N: NNon, Class: ClsOther}}}
 		}
+		return nil
+	}
+	h.Branch = func(st *State, iff *ssa.If, taken bool) {
+		cm, truth, ok := cmpOf(iff.Cond)
+		if !ok || (cm.op != token.EQL && cm.op != token.NEQ) {
+			return
+		}
+		isNullID := originHas("field:NullChunk.ID")
+		if (isCur(st, cm.x) && isNullID(st.ArgOf(cm.y))) || (isCur(st, cm.y) && isNullID(st.ArgOf(cm.x))) {
+			if ((cm.op == token.EQL) == truth) == taken {
+				st.Flags["null-id"] = 1
+			}
+		}
+	}
+	h.Instr = func(st *State, ins ssa.Instruction) {
+		if u, ok := ins.(*ssa.UnOp); ok && u.Op == token.MUL && hasOrigin(u, func(o string) bool { return o == "field:NullChunk.Data" }) {
+			if _, isFA := u.X.(*ssa.FieldAddr); isFA {
+				st.V[u] = Val{N: NNon, Sym: "data:null"}
+			}
+		}
+		sto, ok := ins.(*ssa.Store)
+		if !ok {
+			return
+		}
+		fa, ok := st.Resolve(sto.Addr).(*ssa.FieldAddr)
+		if !ok || fieldOf(fa) != "IndexPos.curChunk" {
+			return
+		}
+		stores++
+		st.Flags["stored"] = 1
+		v := st.Eval(sto.Val)
+		if v.Sym == "" && hasOrigin(st.ArgOf(sto.Val), func(o string) bool { return o == "field:NullChunk.Data" }) {
+			v.Sym = "data:null"
+		}
+		switch v.Sym {
+		case "data:cur":
+		case "data:null":
+			if st.Flags["null-id"] != 1 {
+				bad = append(bad, fmt.Sprintf("the null-chunk shortcut at %s is taken although the current chunk id was not found equal to the null chunk's id", c.pos(ins.Pos())))
+			}
+		default:
+			bad = append(bad, fmt.Sprintf("the chunk cache is filled at %s with something that is neither Data() of GetChunk(current id) nor the null chunk's data (%s)", c.pos(ins.Pos()), v))
+		}
+	}
+	h.Return = func(st *State, ret *ssa.Return, results []Val) {
+		if len(results) == 1 && results[0].N == NNil {
+			nilPaths++
+			if st.Flags["stored"] != 1 {
+				bad = append(bad, fmt.Sprintf("loadChunk returns nil at %s without having stored chunk data", c.pos(ret.Pos())))
+			}
+		}
+	}
+	Explore(lc, lc.Blocks[0], 0, nil, NewState(), h)
+	c.paths += h.Paths
+	switch {
+	case len(bad) > 0:
+		c.bad("IndexPos.loadChunk:cache-fill", lc.Pos(), "%s", bad[0])
+	case stores < 2 || nilPaths < 2:
+		c.bad("IndexPos.loadChunk:stores", lc.Pos(), "loadChunk does not store the chunk data (null shortcut and fetched data expected; %d store(s) on %d success path(s))", stores, nilPaths)
+	default:
+		c.ok("IndexPos.loadChunk:cache-fill", lc.Pos(), "%d success path(s): the cache holds Data() of GetChunk(current id), or the null chunk's data behind id == null id", nilPaths)
 	}
 }
 
